@@ -86,6 +86,10 @@ type vc16Shape struct {
 	orphans       int  // non-ignored objects after the last block
 	noChildren    bool
 	rootCount     int
+	// fixedChildren[b] >= 0: block b has exactly that many (tiny) children instead of a random number; used for
+	// blocks whose DAG is larger than any internal buffer of the accumulator (thousands of objects)
+	fixedChildren []int
+	fewTargets    bool // only the structural targets (1 piece, one family per piece, boundaries of the first families)
 }
 
 func vc16Build(dir string, sh vc16Shape, rng *vh.Rng, epoch int) *vc16Car {
@@ -110,15 +114,25 @@ func vc16Build(dir string, sh vc16Shape, rng *vh.Rng, epoch int) *vc16Car {
 		if !sh.noChildren {
 			nch = rng.Intn(sh.maxChildren + 1)
 		}
+		fixed := b < len(sh.fixedChildren) && sh.fixedChildren[b] >= 0
+		if fixed {
+			nch = sh.fixedChildren[b]
+		}
 		var entries ipldbindcode.List__Link
 		for k := 0; k < nch; k++ {
 			sz := rng.Pick(0, 1, 5, 20, 60, 90, 91, 92, 130, 200)
 			if sh.bigChild > 0 && rng.Intn(12) == 0 {
 				sz = sh.bigChild + rng.Intn(40)
 			}
+			if fixed {
+				sz = rng.Intn(3) // tiny objects: the number of objects matters, not their size
+			}
 			payload := rng.Bytes(sz)
 			uniq++
 			payload = append(payload, byte(uniq), byte(uniq>>8)) // distinct objects
+			if uniq > 0xffff {
+				payload = append(payload, byte(uniq>>16))
+			}
 			kind := rng.Pick(int(iplddecoders.KindTransaction), int(iplddecoders.KindEntry), int(iplddecoders.KindRewards), int(iplddecoders.KindDataFrame))
 			c := add(kind, vc16Child(kind, payload), b)
 			if kind == int(iplddecoders.KindEntry) {
@@ -237,7 +251,7 @@ func vc16ParseSections(b []byte) (secs [][]byte, clean bool) {
 func TestVerif_C16Split(t *testing.T) {
 	rng := vh.NewRng(vh.Seed() + 77)
 	rep := vh.NewReport("C16", "split",
-		"generated epoch CARs (blocks with 0..5 children of 1/2/3-byte-varint sections, childless blocks, ignored Subset nodes between blocks, "+
+		"generated epoch CARs (blocks with 0..5 children of 1/2/3-byte-varint sections, childless blocks, blocks with exactly 5000, 5001 and 5003 tiny objects, ignored Subset nodes between blocks, "+
 			"objects after the last block, 1- and 2-root headers) split by the real split-car command at every boundary target "+
 			"(header +- each prefix of family sizes, below the header, one-family targets, unlimited) and with a shrunk link limit; "+
 			"one evaluation = one split run compared with the original CAR and the model; non-trivial when >= 2 pieces are written; distinct by (CAR, target)")
@@ -266,12 +280,17 @@ func TestVerif_C16Split(t *testing.T) {
 		{name: "orphans", blocks: 6, maxChildren: 3, orphans: 2, rootCount: 2},
 		{name: "links", blocks: linkBlocks, noChildren: true, rootCount: 1},
 		{name: "bigchild", blocks: 7, maxChildren: 5, bigChild: 16400, rootCount: 1},
+		// blocks with thousands of objects of their own (busy slots): exactly 5000, 5001 and 5003 tiny objects between
+		// small blocks, so that a family is larger than any fixed-size buffer on the way from the reader to the pieces
+		{name: "manyobjects", blocks: 5, maxChildren: 3, rootCount: 1, fixedChildren: []int{2, 5000, 5001, 5003, 1}, fewTargets: true},
 	}
 	if vh.Thorough() {
 		shapes = append(shapes,
 			vc16Shape{name: "plain2", blocks: 25, maxChildren: 5, bigChild: 300, rootCount: 1},
 			vc16Shape{name: "mixed", blocks: 30, maxChildren: 4, subsetsInside: true, orphans: 1, rootCount: 3},
-			vc16Shape{name: "single", blocks: 1, maxChildren: 3, rootCount: 1})
+			vc16Shape{name: "single", blocks: 1, maxChildren: 3, rootCount: 1},
+			vc16Shape{name: "manyobjects2", blocks: 6, maxChildren: 3, subsetsInside: true, rootCount: 1,
+				fixedChildren: []int{4999, -1, 12001, 0, 5002, 8193}, fewTargets: true})
 	}
 	knownSeen := 0
 	runNo := 0
@@ -321,7 +340,15 @@ func TestVerif_C16Split(t *testing.T) {
 		if sh.name == "tiny" {
 			quota = 1000
 		}
-		if len(bound) <= quota {
+		if sh.fewTargets {
+			// one piece (unlimited, exact total), two pieces (total-1), one family per piece (0, the largest family),
+			// the boundaries after each prefix of families
+			acc := int64(0)
+			for _, s := range car.famSizes {
+				acc += int64(s)
+				tset[h+acc-1], tset[h+acc] = true, true
+			}
+		} else if len(bound) <= quota {
 			for _, b := range bound {
 				tset[b-1], tset[b], tset[b+1] = true, true, true
 			}
@@ -557,6 +584,14 @@ func TestVerif_C16Split(t *testing.T) {
 			}()
 
 			// ---- Coq case ----
+			// A CAR with thousands of objects per block costs coqc about 14 s per case (parsing a 260 KB term and expanding
+			// 650 000 bytes twice): such runs are judged by the property oracle above only, except for two targets (one piece,
+			// one family per piece) of the first such CAR in the thorough tier.
+			if sh.fewTargets && !(vh.Thorough() && sh.name == "manyobjects" && (target == 0 || target == 1<<40)) {
+				rep.Count("oracle-only(no model case)")
+				os.RemoveAll(rdir)
+				continue
+			}
 			objTerms := make([]string, len(car.objs))
 			for i, o := range car.objs {
 				objTerms[i] = fmt.Sprintf("(%d,%d)", o.kind, len(o.section))
